@@ -34,7 +34,7 @@ def contract(cfg: Dict[str, Any], events: List[List[Any]], status: str) -> List[
     p = lambda w, k, x: pos[(w, k, x)][0]
     bad: List[str] = []
     # a genuine error raised by the main visitor's depart_* reaches the caller (and only then is the traversal abandoned)
-    raised = any(prune[x - 1] == "DepartError" and seen("main", "depart", x) for x in range(1, n + 1))
+    raised = any(prune[x - 1] in ("DepartError", "SkipSiblingsDepartError") and seen("main", "depart", x) for x in range(1, n + 1))
     if raised != (status == "failed"):
         bad.append("ErrorsSurface")
     if status == "failed":
@@ -97,7 +97,7 @@ def contract(cfg: Dict[str, Any], events: List[List[Any]], status: str) -> List[
         px = parent[x - 1]
         elder = [y for y in range(2, x) if parent[y - 1] == px]
         visited[x] = (visited[px] and prune[px - 1] not in ("SkipChildren", "SkipNode")
-                      and not any(visited[s] and prune[s - 1] in ("SkipSiblings", "DepartSkipSiblings") for s in elder))
+                      and not any(visited[s] and prune[s - 1] in ("SkipSiblings", "DepartSkipSiblings", "SkipSiblingsDepartError") for s in elder))
     if any(seen("main", "visit", x) != visited[x] for x in range(1, n + 1)):
         bad.append("PruningMeans")
     return bad
@@ -131,6 +131,8 @@ def run_real(cfg: Dict[str, Any]) -> Tuple[List[List[Any]], str]:
         def visit_Nd(self, ob):
             events.append(["main", "visit", ob.i])
             k = prune[ob.i - 1]
+            if k == "SkipSiblingsDepartError":
+                raise self.SkipSiblings()
             if k not in ("none", "DepartSkipSiblings", "DepartError"):
                 raise getattr(self, k)()
 
@@ -138,7 +140,7 @@ def run_real(cfg: Dict[str, Any]) -> Tuple[List[List[Any]], str]:
             events.append(["main", "depart", ob.i])
             if prune[ob.i - 1] == "DepartSkipSiblings":
                 raise self.SkipSiblings()
-            if prune[ob.i - 1] == "DepartError":
+            if prune[ob.i - 1] in ("DepartError", "SkipSiblingsDepartError"):
                 raise _Boom(ob.i)
 
     def mk(tag: str):
